@@ -278,9 +278,12 @@ theorem uncertainty_counterexample :
       .ok [⟨some "s".toList, [⟨some "p".toList, some "int".toList, [.int 1],
             some ⟨false, "0.5".toList⟩⟩]⟩] := by decide
 
-/-- A Section named `" "` is loaded back without a name of its own (it is named by its id). -/
-theorem blank_name_counterexample :
+/-- A Section named `" "` cannot be kept by the XML form: the writer refuses the document with
+    `ParserException` (fix e87b2d6; fixed finding `blank_name_replaced_by_id`). What it wrote
+    before is loaded back without a name of its own (the Section is named by its id). -/
+theorem blank_name_refused :
     wfDoc idLib (docWith [secWith u2 " " []]) = true ∧
+    docRefused (docWith [secWith u2 " " []]) = true ∧
     view (readXml .strict idLib (writeTree (docWith [secWith u2 " " []]))) = .ok [⟨none, []⟩] := by
   decide
 
@@ -306,10 +309,12 @@ theorem tuple_item_refused_raises :
   have h : docRefused (docWith [secWith u2 "s" [pTup]]) = true := by decide
   simp [writeXml, h]
 
-/-- Siblings `a` and `a ` are both written; the strict reader refuses the file it was given by
-    the writer, the lenient reader loses the second sibling. -/
-theorem name_clash_counterexample :
+/-- Siblings `a` and `a ` cannot be kept apart by the XML form: the writer refuses the document
+    (fix e87b2d6; fixed finding `sibling_names_equal_after_trim`). Of what it wrote before, the
+    strict reader refused the file, the lenient reader lost the second sibling. -/
+theorem name_clash_refused :
     wfDoc idLib (docWith [secWith u2 "a" [], secWith u3 "a " []]) = true ∧
+    docRefused (docWith [secWith u2 "a" [], secWith u3 "a " []]) = true ∧
     view (readXml .strict idLib (writeTree (docWith [secWith u2 "a" [], secWith u3 "a " []]))) =
       .error .parser ∧
     view (readXml .lenient idLib (writeTree (docWith [secWith u2 "a" [], secWith u3 "a " []]))) =
@@ -519,12 +524,13 @@ example : denote idLib (.elem "odML" [("version", "1.1".toList)] none
 /-! ## 7. Never written in altered form: refused, or the round trip -/
 
 /-- For every valid document (`wfDoc`, `docLower`) whose names and uncertainties are representable
-    (`xmlReprN`: the three remaining open findings excluded) the writer either raises - with
-    `ParserException` for an n-tuple item holding a comma or a line break (`docRefused`), with
-    lxml's `ValueError` for a character XML cannot hold - and writes nothing, or what it wrote
+    (`xmlReprU`: no numeric `uncertainty`, the one remaining open finding) the writer either raises
+    - with `ParserException` for an n-tuple item holding a comma or a line break, a blank name or
+    sibling names equal after trimming (`docRefused`), with lxml's `ValueError` for a character XML
+    cannot hold - and writes nothing, or what it wrote
     loads back, in both reader modes, to the very document up to trimming, without a warning. -/
 theorem xml_roundtrip_or_refused (m : Mode) (lib : TokLib) (d : DocT) (hwf : wfDoc lib d = true)
-    (hn : xmlReprN d = true) (hlow : docLower d = true) :
+    (hn : xmlReprU d = true) (hlow : docLower d = true) :
     (∃ e, writeXml d = .error e) ∨
     (∃ x, writeXml d = .ok x ∧ readXml m lib x = .ok (trimDoc d, 0)) := by
   cases hnr : docRefused d with
@@ -538,9 +544,9 @@ theorem xml_roundtrip_or_refused (m : Mode) (lib : TokLib) (d : DocT) (hwf : wfD
       exact xml_save_load m lib d _ hwf (xmlRepr_of_not_refused lib d hwf hn hnr) hlow hx
 
 /-- The refusal is exact: on valid documents the writer's `ParserException` is raised precisely
-    for the documents the bracketed tuple text cannot carry. -/
+    for the documents the XML form cannot carry (tuple items, names). -/
 theorem xml_refused_iff_not_repr (lib : TokLib) (d : DocT) (hwf : wfDoc lib d = true)
-    (hn : xmlReprN d = true) : docRefused d = false ↔ xmlRepr d = true :=
+    (hn : xmlReprU d = true) : docRefused d = false ↔ xmlRepr d = true :=
   ⟨xmlRepr_of_not_refused lib d hwf hn, not_refused_of_xmlRepr d⟩
 
 end C01
